@@ -233,6 +233,10 @@ function multiFileKinds() {
     ['import:local-wins', (b) => ({ main: [imp('o'), tdef('t', [text('LOCAL')]), tis('t')], files: { 'd/o': [tdef('t', [text('IMPORTED'), ...b])] }, scripts: {} })],
     ['import:later-wins', (b) => ({ main: [imp('o'), imp('p'), tis('t')], files: { 'd/o': [tdef('t', [text('FIRST')])], 'd/p': [tdef('t', [text('SECOND'), ...b])] }, scripts: {} })],
     ['import:not-transitive-render', (b) => ({ main: [imp('o'), tis('t')], files: { 'd/o': [tdef('t', [text('T'), ...b]), text('TOP-LEVEL-OF-IMPORTED')] }, scripts: {} })],
+    // a path that still ends with the suffix after the one the parser strips
+    ['include:double-suffix', (b) => ({ main: [include('o.wxml.wxml'), ...b], files: { 'd/o.wxml': [text('INC2', X), ...b] }, scripts: {} })],
+    ['import:double-suffix', (b) => ({ main: [imp('./o.wxml.wxml'), tis('t')], files: { 'd/o.wxml': [tdef('t', [text('IMP2'), ...b])] }, scripts: {} })],
+    ['wxs:src-double-suffix', (b) => ({ main: [wxs('m', undefined, 's.wxs.wxs'), text(E(M.mem(id('m'), 'k'))), ...b], files: {}, scripts: { 'd/s.wxs': 'exports.k = "S2"' } })],
     ['wxs:src', (b) => ({ main: [wxs('m', undefined, './s.wxs'), text(E(M.mem(id('m'), 'k'))), ...b], files: {}, scripts: { 'd/s': 'exports.k = "S"' } })],
     ['wxs:src-require', (b) => ({ main: [wxs('m', undefined, '/lib/s'), text(E(M.mem(id('m'), 'k'))), ...b], files: {}, scripts: { 'lib/s': 'exports.k = require("./t").k + "!"', 'lib/t': 'exports.k = "T"' } })],
   ]
